@@ -245,7 +245,16 @@ def serialisations(rng, cfg):
         if isinstance(o, list): return [shuffled(x) for x in o]
         return o
     compact = json.dumps(cfg, separators=(",", ":"), ensure_ascii=False)
-    out = [("compact", compact), ("pretty2", json.dumps(cfg, indent=2, ensure_ascii=False)), ("pretty8", json.dumps(cfg, indent=8)),
+    # the same strings written with escape sequences: every character of every string value as \uXXXX (surrogate pairs beyond the BMP),
+    # the member names as well, and every solidus as \/ (what ASCII-only and HTML-safe serialisers emit)
+    def esc(st): return '"' + "".join("\\u%04x" % u for u in __import__("struct").unpack("<%dH" % (len(st.encode("utf-16-le")) // 2), st.encode("utf-16-le"))) + '"'
+    def dump_esc(o, keys_too):
+        if isinstance(o, dict): return "{" + ",".join((esc(k) if keys_too else json.dumps(k)) + ":" + dump_esc(v, keys_too) for k, v in o.items()) + "}"
+        if isinstance(o, list): return "[" + ",".join(dump_esc(x, keys_too) for x in o) + "]"
+        if isinstance(o, str): return esc(o)
+        return json.dumps(o)
+    out = [("compact", compact), ("escaped_values", dump_esc(cfg, False)), ("escaped_names_too", dump_esc(cfg, True)),
+           ("escaped_solidus", json.dumps(cfg, ensure_ascii=False).replace("/", "\\/")), ("pretty2", json.dumps(cfg, indent=2, ensure_ascii=False)), ("pretty8", json.dumps(cfg, indent=8)),
            ("shuffled", json.dumps(shuffled(cfg), indent=1, ensure_ascii=False))]
     # every kind of JSON white space, in every position: CRLF line endings (a Windows editor, core.autocrlf), a leading or a
     # trailing CR / CRLF / tab, CR between tokens
@@ -269,7 +278,7 @@ def serialisations(rng, cfg):
         out.append(("mid_pad_%d" % size, compact[:j] + " " * pad + compact[j:]))
     return out
 
-def c18_case(ctx, rng, n_targets):
+def c18_case(ctx, rng, n_targets, explicit=False):
     lock_port, log_port = vlib.fresh_ports()
     if n_targets <= 8:
         cfg = G.gen_config(rng, nmax=n_targets)
@@ -277,6 +286,11 @@ def c18_case(ctx, rng, n_targets):
     else:
         cfg = {"targets": [{"path": "pkg/t%03d" % i, **({"uses": ["pkg/t%03d" % rng.randrange(i)]} if i and rng.random() < 0.5 else {})} for i in range(n_targets)]}
     cfg["server"] = {"lock": {"port": lock_port, "bind_timeout_ms": 1000}, "log": {"port": log_port, "bind_timeout_ms": 1000}}
+    # optional members written out explicitly (strings of every kind: plain, with a solidus, non-ASCII, beyond the BMP)
+    if rng.random() < 0.6 or explicit: cfg["out_dir"] = rng.choice(["monorail-out", "build/r\u00e9sultats", "out dir", "out/\U0001F4E6"])
+    if rng.random() < 0.4: cfg["server"]["lock"]["host"] = "127.0.0.1"
+    if rng.random() < 0.4: cfg["server"]["log"]["host"] = "127.0.0.1"
+    if rng.random() < 0.4: cfg["change_provider"] = {"use": "git"}
     d = mk_dir(ctx, cfg)
     try:
         ref = None
@@ -368,6 +382,6 @@ def run_c18(ctx, scale):
     rng = ctx.rng
     plan = [3, 6, 300] if ctx.quick() else [2, 3, 5, 8, 40, 300, 300] * 10
     for n in plan * scale:
-        c18_case(ctx, rng, n)
+        c18_case(ctx, rng, n, explicit=(n == plan[0]))
     for n in ([2, 150] if ctx.quick() else [0, 2, 40, 150, 400] * 4) * scale:
         c18_generate_case(ctx, rng, n)
